@@ -167,8 +167,9 @@ Proof. exact locktime_p_total. Qed.
 Theorem C10_builder_inv : forall items b, api_builder items = Taproot.Ok b ->
   (b = [] \/ exists n r, b = Some n :: r) /\ forall s, finalize_p b <> Taproot.Panic s.
 Proof. intros items b R. split; [exact (run_head_some triv triv items b R)|exact (finalize_p_api items b R)]. Qed.
-Theorem C10_builder_serde_refuted : finalize_p [None] = Taproot.Panic BuilderInvariant /\ known_F16 [None] = true.
-Proof. exact finalize_p_serde_refuted. Qed.
+(* F16 is repaired by fix c723f02: the former C10_builder_serde_refuted (finalize_p [None] = Panic BuilderInvariant) is replaced by *)
+Theorem C10_builder_serde_repaired : finalize_p [None] = Taproot.Fail IncompleteTree /\ forall b s, finalize_p b <> Taproot.Panic s.
+Proof. exact finalize_p_serde_repaired. Qed.
 
 (* pegin witness, pegout script, minimum value *)
 Theorem C10_total_pegin : forall w x, from_pegin_witness w <> Panic x.
